@@ -337,7 +337,7 @@ func newEnvPickler() pickle.PicklerFunc {
 
 // envPickler provides support for pickling functions and modules.
 //
-// - Builtins are pickled as (NEWOBJ "dawn" "Builtin" ())
+// - Builtins are pickled as (NEWOBJ "dawn" "Builtin" (name[, receiver]))
 // - Function code is pickled as (NEWOBJ "dawn" "FunctionCode" (module, globals, bytecode))
 // - Functions are pickled as (NEWOBJ "dawn" "Function" (defaults, freevars, code)).
 func envPickler(x starlark.Value) (module, name string, args starlark.Tuple, err error) {
@@ -345,7 +345,14 @@ func envPickler(x starlark.Value) (module, name string, args starlark.Tuple, err
 	case *function:
 		return "dawn", "Target", starlark.Tuple{starlark.String(x.label.String())}, nil
 	case *starlark.Builtin:
-		return "dawn", "Builtin", starlark.Tuple{}, nil
+		// A builtin is identified by its name and, for a bound method of a plain value such as
+		// "hello {}".format, by that value.
+		args := starlark.Tuple{starlark.String(x.Name())}
+		switch recv := x.Receiver().(type) {
+		case starlark.String, starlark.Bytes, starlark.Int, starlark.Float, starlark.Bool, starlark.Tuple, *starlark.List, *starlark.Dict, *starlark.Set:
+			args = append(args, recv)
+		}
+		return "dawn", "Builtin", args, nil
 	case *starlark.FunctionCode:
 		module, globals := x.ModuleEnv()
 		return "dawn", "FunctionCode", starlark.Tuple{module, globals, starlark.Bytes(x.Bytecode())}, nil
@@ -359,7 +366,7 @@ func envPickler(x starlark.Value) (module, name string, args starlark.Tuple, err
 
 // envUnpickler provides support for unpickling functions and modules.
 //
-//   - Builtins are unpickled from (NEWOBJ "dawn" "Builtin" ()) into ()
+//   - Builtins are unpickled from (NEWOBJ "dawn" "Builtin" (name[, receiver])) into that tuple
 //   - Function code is unpickled from (NEWOBJ "dawn" "FunctionCode" (module, globals, bytecode))
 //     into a dictionary.
 //   - Functions are unpickled from (NEWOBJ "dawn" "Function" (defaults, freevars, code))
@@ -381,8 +388,9 @@ func envUnpickler(module, name string, args starlark.Tuple) (starlark.Value, err
 		}
 		return args[0], nil
 	case "Builtin":
-		if len(args) != 0 {
-			return nil, fmt.Errorf("expected 0 args, got %v", len(args))
+		// () in records written before builtins were identified, else (name) or (name, receiver)
+		if len(args) > 2 {
+			return nil, fmt.Errorf("expected at most 2 args, got %v", len(args))
 		}
 		return args, nil
 	case "FunctionCode":
